@@ -9,7 +9,10 @@ tie:   Gen_Auth.v regenerated from the source (compiled patterns, handler litera
        evaluated by vm_compute on the same inputs and must reproduce the interleaved read/write history
        and the outcome class.  Independent oracles on the server's log and on the history.
        Whole open() of the four drivers over every combination of configured / empty user name, password and
-       key passphrase (oracle: a prompt state only receives ITS credential or an empty line), and histories
+       key passphrase (oracle: a prompt state only receives ITS credential or an empty line), over credential VALUES
+       (blanks / tabs in front, behind and inside, empty, long, '%', backslash, quotes, non-ASCII, regex metacharacters,
+       a trailing newline; oracle: the device receives the configured value as UTF-8 bytes + one return, byte for byte),
+       devices that are quiet for a read-poll interval right after every answer, and histories
        of several logins on ONE channel / driver object (each login judged on its own; model: the history
        fold hist_cl with the counter scope gen_auth reads from the source)."""
 import json
@@ -455,6 +458,43 @@ def judge_open(S, kind, spec, creds, res, pc):
     return general, fails, region, hz
 
 
+def judge_values(S, kind, spec, creds, res, pc, interval_ms):
+    """whole-open scenarios over credential VALUES (leading / trailing / inner blanks and tabs, empty, long, '%', backslash,
+    quotes, non-ASCII, regex metacharacters, a trailing newline).  -> same tuple as judge_login.
+    general: the byte-level device-side oracle (own_bytes_oracle): every write the device receives is the return or, byte for
+    byte, the configured credential (UTF-8) of the prompt state it is waiting in, followed by one return; region failures:
+    outcome, and the bytes the device received state by state, against what it receives from a correct client that types the
+    configured values (ideal_full)"""
+    want_out, want_log, ideal_segs, why, isrv = S.ideal_full(spec, creds, kind == "ssh")
+    hz = S.hazard_on_ideal(pc, ideal_segs, S.cut_offsets(res))
+    region = "inside"
+    if hz is not None:
+        region = "lookalike-line" if not hz["midline"] else ("partial-line-shell" if hz["reaction"] == "shell" else "partial-line")
+    elif not S.accepted(pc, ideal_segs):
+        region = "unaccepted-spelling"
+    elif any(k == "empty" and t > interval_ms for k, _, t in res["reads"]):
+        region = "kicks"
+    elif why in ("dead", "closed"):
+        region = "no-third-prompt" if len(want_log) >= 2 else "silent"
+    elif res.get("cut_short"):
+        region = "cut-short"
+    own = S.own_bytes_oracle(res, creds, states=region != "kicks")
+    general, fails = [], []
+    if region in ("partial-line", "partial-line-shell", "lookalike-line"):
+        fails += own
+    else:
+        general += own
+    if region in ("inside", "partial-line", "partial-line-shell"):
+        if res["outcome"] != want_out:
+            fails.append("outcome %s, wanted %s (%s)" % (res["outcome"], want_out, why))
+        want_raw = [(st, bytes(b)) for st, b in isrv.raw]
+        if res["raw"] != want_raw:
+            def sh(raw):
+                return [(st, b if len(b) <= 40 else b[:24] + b"...(%d bytes)" % len(b)) for st, b in raw]
+            fails.append("bytes the device received, state by state: %r, wanted %r" % (sh(res["raw"]), sh(want_raw)))
+    return general, fails, region, hz
+
+
 # ------------------------------------------------------------------------------------------------
 # suites
 # ------------------------------------------------------------------------------------------------
@@ -543,6 +583,8 @@ def one_login(cx, suite, stack, kind, style, spec, pol, creds, timeout_ops=30.0,
     pc = cx.pycfg(kind, style)
     if judge == "open":
         general, fails, region, hz = judge_open(S, kind, spec, creds, res, pc)
+    elif judge == "values":
+        general, fails, region, hz = judge_values(S, kind, spec, creds, res, pc, interval_ms)
     else:
         general, fails, region, hz = judge_login(S, kind, spec, creds, res, pc, interval_ms, int(timeout_ops * 1000), eof, pol.get("idle"))
     scen = {"suite": suite, "stack": stack, "kind": kind, "style": style, "spec": spec_json(spec), "policy": pol,
@@ -560,7 +602,9 @@ def one_login(cx, suite, stack, kind, style, spec, pol, creds, timeout_ops=30.0,
               creds["user"], creds["phrase"], via_driver),
              nontrivial=len(res["writes"]) > 0 and nr > 1)
     pid = PROMPT_IDS[style]
-    if closed_loop_eligible(res, interval_ms):
+    if closed_loop_eligible(res, interval_ms) and not any(b"\n" in v for v in creds.values()):
+        # (a credential that contains a newline makes the device react twice to one answer: the closed-loop model's
+        # server prints one phase per answer, so those runs are checked against the open-loop model on the reads)
         term = case_a(kind, pid, creds, interval_ms, res)
         cx.count("by_model", "closed-loop (cl_run)")
     else:
@@ -747,6 +791,148 @@ def open_suite(cx, n_random):
                                       via_driver=drv, judge="open")
     cx.rep.sample({"open_scenario": "Driver.open(), system-style ssh, password configured, passphrase empty, server shows a passphrase prompt",
                    "oracle": "each prompt state only receives its own credential or an empty line"})
+
+
+# credential VALUES.  str, as a user writes them into an inventory; the device must receive value.encode() (UTF-8: what
+# Channel.write documents, "string of input to send", encoded) and one return -- byte for byte
+VAL_BLANKS = [" s3cret", "s3cret ", "  two  words  ", "\tpw", "pw\t", "pa ss\tword", " ", "\t \t", " lead and trail "]
+VAL_PUNCT = ["100%s%d%", "%(name)s %", "back\\slash\\n", "c:\\temp\\", "q'uo\"te`", "it's", "\"quoted\"", "p.*w+(x)[y]{2}^$|?",
+             "a\\d\\b[", "{0}{}", "$HOME;`id`", "#>$", "(?i)pw", "x|y", "^anchored$", "%", "\\"]
+VAL_NONASCII = ["p\u00e4ss-w\u00f6rd-\u00df", "\u043f\u0430\u0440\u043e\u043b\u044c", "\u5bc6\u7801\U0001f511x", "caf\u00e9 ", "\u00a0nbsp\u00a0",
+                " \u00fcber", "na\u00efve\t", "\u3000wide\u3000blank", "\u00ff\u0100"]
+VAL_USERS = ["admin", " admin", "admin ", "ad min", "\tadmin", "\u00c4dmin", "user%s", "dom\\user", "o'brien", "u.*[a-z]+(x)?",
+             "ping\u00fcino", "root\t", "\"ops\"", "svc-scrapli_01"]
+NONASCII_LINES = ["Acc\u00e8s r\u00e9serv\u00e9 \u2013 toute connexion est journalis\u00e9e", "\u30b7\u30b9\u30c6\u30e0\u306f\u76e3\u8996\u3055\u308c\u3066\u3044\u307e\u3059",
+                  "Zugriff nur f\u00fcr Befugte \u2714", "\u00a9 2024 r\u00e9seau \u00ab core \u00bb"]
+VAL_CHARS = "abcdefghijklmnopqrstuvwxyzABCDEFGHIJKLMNOPQRSTUVWXYZ0123456789 %\\'\"-_+=."
+
+
+def gen_value(rng, thorough=False):
+    r = rng.random()
+    if r < 0.30:
+        return rng.choice(VAL_BLANKS)
+    if r < 0.52:
+        return rng.choice(VAL_PUNCT)
+    if r < 0.70:
+        return rng.choice(VAL_NONASCII)
+    if r < 0.75:
+        return ""
+    if r < 0.85:
+        n = rng.choice([64, 255, 1024] + ([4096, 9000] if thorough else []))
+        return "".join(rng.choice(VAL_CHARS) for _ in range(n))
+    # a plain word padded with blanks / tabs on either side
+    return "".join(rng.choice(" \t") for _ in range(rng.randint(0, 2))) + rng.choice(["S3cret!pw", "k3y phrase", "pw", "\u00fcber"]) + \
+        "".join(rng.choice(" \t") for _ in range(rng.randint(0, 2)))
+
+
+def value_scenarios(rng, n_random, thorough):
+    """-> [(kind, stack, driver | None, spec, creds)].  A fixed part (the same on every seed: every login kind / stack /
+    driver x a blank in front, a tab behind, a trailing newline on the last credential asked) and a random part"""
+    out = []
+
+    def spec_for(kind, creds, valid, phrase=False):
+        sp = gen_spec(rng, kind, "driver", valid=valid)
+        if rng.random() < 0.35:
+            # "any banner text": a banner / MOTD line that is not ASCII either (UTF-8, cut anywhere by the chunkings)
+            line = rng.choice(NONASCII_LINES).encode() + sp["nl"]
+            if rng.random() < 0.5:
+                sp["banner"] = sp["banner"] + line
+            else:
+                sp["motd"] = line + sp["motd"]
+        if kind == "ssh":
+            sp["phrase_prompt"] = rng.choice(PHRASE_PROMPTS) if phrase else None
+            sp["phrase_tries"] = 3
+        if valid:
+            # the account on the device has the configured value (a line-based device never sees the newline itself)
+            sp["valid"] = {k: v.rstrip(b"\n") for k, v in creds.items()}
+        return sp
+
+    combos = [("telnet", "sync", "base"), ("telnet", "async", "base"), ("ssh", "sync", "base"), ("telnet", "sync", "generic"),
+              ("telnet", "async", "generic"), ("ssh", "sync", "generic"), ("ssh", "async", None)]
+    fixed = [" s3cret", "s3cret\t", "S3cret!pw\n"]
+    for ci, (kind, stack, drv) in enumerate(combos):
+        for vi, v in enumerate(fixed):
+            if (ci + vi) % 3 == 2 and not thorough:
+                continue
+            phrase = kind == "ssh" and (ci + vi) % 2 == 0
+            creds = {"user": b"admin", "pass": b"S3cret!pw" if phrase else v.encode(), "phrase": v.encode() if phrase else b"k3y phrase"}
+            out.append((kind, stack, drv, spec_for(kind, creds, True, phrase), creds))
+    import random
+    long_value = "".join(random.Random(5).choice(VAL_CHARS) for _ in range(2048)) + " "
+    for (kind, stack, drv), v in zip([combos[1], combos[2], combos[3], combos[6]],
+                                     [long_value, "\u043f\u0430\u0440\u043e\u043b\u044c \u00a0", "100%s \\n\\ 'q\"` ", "\tp\u00e4ss w\u00f6rd"]):
+        creds = {"user": b"admin", "pass": v.encode(), "phrase": b"k3y phrase"}
+        out.append((kind, stack, drv, spec_for(kind, creds, True, False), creds))
+    for i in range(n_random):
+        kind, stack, drv = combos[i % len(combos)] if i < 2 * len(combos) else rng.choice(combos)
+        phrase = kind == "ssh" and rng.random() < 0.6
+        valid = rng.random() < 0.7
+        plain = rng.random() < 0.4          # only one of the values is unusual
+        which = rng.choice(["pass", "pass", "phrase" if phrase else "pass", "user" if kind == "telnet" else "pass"])
+        vals = {"user": rng.choice(VAL_USERS) if (kind == "telnet" and (not plain or which == "user")) else "admin",
+                "pass": gen_value(rng, thorough=thorough) if (not plain or which == "pass") else "S3cret!pw",
+                "phrase": gen_value(rng, thorough=thorough) if (phrase and (not plain or which == "phrase")) else "k3y phrase"}
+        creds = {k: v.encode() for k, v in vals.items()}
+        if not valid and creds == CREDS:
+            valid = True
+        out.append((kind, stack, drv, spec_for(kind, creds, valid, phrase), creds))
+    return out
+
+
+def values_suite(cx, n_random, salt=0):
+    """whole open() of Driver / GenericDriver / AsyncDriver / AsyncGenericDriver (asyncio ssh: the AsyncChannel login) with
+    credential VALUES that tempt a driver to normalise them: leading / trailing / inner blanks and tabs, empty, long, '%',
+    backslashes, quotes, non-ASCII (str -> bytes), regex metacharacters, a trailing newline; accepted and rejected by the
+    device; chunkings incl. a device that is quiet for a poll interval after every answer.  Oracle: judge_values."""
+    import random
+    thorough = cx.rep.tier == "thorough"
+    rng = random.Random(cx.rep.seed * 7919 + 90901 + 97 * salt)
+    scens = value_scenarios(rng, n_random, thorough)
+    for si, (kind, stack, drv, spec, creds) in enumerate(scens):
+        total = sum(len(tx) for _, tx in cx.S.ideal(spec, creds, kind == "ssh")[2])
+        pols = [{"type": "whole"}, rng.choice(policies(rng, total, 2, 2, bytewise=total < 400)[1:])]
+        if si % 3 == 0:
+            q = dict(pols[rng.randint(0, 1)])
+            q["quiet"] = [1, 1500 if kind == "telnet" else 1000]
+            pols.append(q)
+        for pol in pols:
+            style = "driver" if drv in (None, "base") else "generic"
+            r = one_login(cx, "values", stack, kind, style, spec, pol, creds, via_driver=drv, judge="values")
+        if si == 1:
+            cx.rep.sample({"values_scenario": "%s/%s open() via %s" % (kind, stack, drv or "AsyncChannel login"),
+                           "configured": {k: v.decode("utf-8") for k, v in creds.items()},
+                           "device_received": [[st, b.decode("utf-8", "replace")] for st, b in r[0]["raw"]], "outcome": r[0]["outcome"]})
+    cx.dist["value_kinds"] = {
+        "leading_or_trailing_blank": sum(1 for *_, c in scens if any(v != v.strip() for v in c.values())),
+        "non_ascii": sum(1 for *_, c in scens if any(max(v, default=0) > 127 for v in c.values())),
+        "empty": sum(1 for *_, c in scens if any(v == b"" for v in c.values())),
+        "long(>=255)": sum(1 for *_, c in scens if any(len(v) >= 255 for v in c.values())),
+        "trailing_newline": sum(1 for *_, c in scens if any(v.endswith(b"\n") for v in c.values())),
+        "percent_backslash_quote": sum(1 for *_, c in scens if any(set(b"%\\'\"") & set(v) for v in c.values())),
+        "rejected_by_device": sum(1 for _, _, _, sp, c in scens if {k: v.rstrip(b"\n") for k, v in c.items()} != sp["valid"])}
+
+
+def quiet_suite(cx, n, salt=0):
+    """a device that goes quiet right after the client answered a prompt -- for one or two read-poll intervals (asyncio:
+    wait_for expires, timeout_ops/20 on telnet, 1 s on ssh; sync: read() returns nothing) and less than the telnet kick
+    interval where possible -- before it prints its reaction: every prompt is still answered once (judge_login)"""
+    import random
+    rng = random.Random(cx.rep.seed * 7919 + 90902 + 97 * salt)
+    for i in range(n):
+        kind = "telnet" if i % 2 == 0 else "ssh"
+        style = rng.choice(["channel", "driver", "generic"])
+        valid = rng.random() < 0.7
+        spec = gen_spec(rng, kind, style, valid=valid)
+        creds = dict(CREDS) if valid else dict(WRONG)
+        total = sum(len(tx) for _, tx in cx.S.ideal(spec, creds, kind == "ssh")[2])
+        timeout_ops = rng.choice([30.0, 30.0, 10.0, 60.0])
+        poll = int(timeout_ops * 50) if kind == "telnet" else 1000
+        base = [{"type": "whole"}, rng.choice(policies(rng, total, 3, 3, bytewise=True)[1:])]
+        for b in base:
+            pol = dict(b)
+            pol["quiet"] = rng.choice([[1, poll], [1, poll], [2, poll // 2], [1, poll + 1], [2, poll], [3, poll // 3]])
+            for stack in ("sync", "async"):
+                one_login(cx, "quiet", stack, kind, style, spec, pol, creds, timeout_ops=timeout_ops, max_reads=2000)
 
 
 HIST_COMBOS = [("telnet", "sync", "channel"), ("telnet", "sync", "driver"), ("telnet", "async", "channel"),
@@ -1085,11 +1271,13 @@ def run(rep):
         handler_suite(cx, 200 if thorough else 40)
         fatal_suite(cx)
         corpus_suite(cx, double_cuts=thorough)
+        quiet_suite(cx, 60 if thorough else 12)
         login_suite(cx, 100 if thorough else 20, None if thorough else 24, 8 if thorough else 4, 2 if thorough else 3)
         hazard_suite(cx, 15 if thorough else 5)
         kick_suite(cx, 500 if thorough else 100)
         driver_suite(cx, 40 if thorough else 10)
         open_suite(cx, 3 if thorough else 1)
+        values_suite(cx, 150 if thorough else 36)
         history_suite(cx, 6 if thorough else 1, 6 if thorough else 4)
         events_suite(cx, 3000 if thorough else 500)
         dlgok_suite(cx, 150 if thorough else 30)
@@ -1133,6 +1321,8 @@ def run(rep):
                 kick_suite(cx, 80)
                 driver_suite(cx, 6)
                 open_suite(cx, 2)
+                values_suite(cx, 60, salt=1)
+                quiet_suite(cx, 20, salt=1)
                 history_suite(cx, 3, 5)
                 events_suite(cx, 300)
             del rep.notes[nb + 6:]
@@ -1149,7 +1339,13 @@ def run(rep):
                 "errors, hang-ups, timeout_ops 30/10/60/0; driver: GenericDriver/Driver.open(); open: Driver / GenericDriver / "
                 "AsyncDriver / AsyncGenericDriver.open() (telnet, system-style ssh; asyncio ssh: the AsyncChannel login) x all 8 "
                 "combinations of configured/empty user name, password, passphrase x dialogues asking for each of them (login+password, "
-                "password only, ssh password, passphrase with/without 'empty skips the key') x chunkings; history: 2-4 (thorough 2-6) "
+                "password only, ssh password, passphrase with/without 'empty skips the key') x chunkings; values: the same open() "
+                "calls with credential VALUES a driver might be tempted to normalise (leading / trailing / inner blanks and tabs, "
+                "NBSP / U+3000, empty, 64-2048 (thorough 9000) characters, '%', backslash, quotes, non-ASCII (UTF-8), regex "
+                "metacharacters, a trailing newline on the last credential asked), accepted and rejected by the device, a third of the "
+                "dialogues with a non-ASCII (UTF-8) banner / MOTD line, a fixed part "
+                "on every seed + a random part; quiet: the device says nothing for 1-3 read polls (clock + poll/3 .. poll+1 ms each, "
+                "timeout_ops 10/30/60) right after every line the client sends; history: 2-4 (thorough 2-6) "
                 "logins on ONE channel / driver object (open, close, open ...), plain and with one re-prompt, valid and rejected "
                 "credentials, sync/asyncio, telnet/ssh; events: open-loop scripts of prompt "
                 "snippets; non-trivial = something was written and more than one read; distinct = (suite, dialogue, chunking, credentials)")
@@ -1256,7 +1452,12 @@ MANIFEST = {
             "CaseH evaluates hist_cl with the generated counter scope on all logins of the history); independent "
             "oracles on the server log and on the history (python re): per credential 'written only after its own pattern, at most "
             "twice', device-side 'each prompt state only ever receives ITS credential or an empty line' for every configuration of "
-            "set/empty credentials through the whole open() of the sync and asyncio drivers, and per login of a multi-login history "
+            "set/empty credentials through the whole open() of the sync and asyncio drivers, byte-level device-side 'every write the "
+            "device receives in a prompt state is the configured value of THAT credential as UTF-8 bytes, followed by one return, and "
+            "the bytes received state by state are those a correct client types' for credential values with blanks / tabs / empty / "
+            "long / %, backslash, quotes / non-ASCII / regex metacharacters / trailing newline through the whole open(), the same "
+            "history oracles with a device that is quiet for one or more read polls after each answer (asyncio poll expiry, sync "
+            "empty read), and per login of a multi-login history "
             "'outcome and device log are those of the same login on a fresh object'.",
     "note": "Section-variable style hypotheses (named in the theorems): empties (nothing matches the empty buffer: discharged for the "
             "patterns of the tree by C09_generated_empties), dlg_ok (no chunk-prefix of the dialogue provokes a reaction other than the "
@@ -1269,7 +1470,13 @@ MANIFEST = {
             "the whole-open scenarios with empty credentials are covered by the oracles and by the correspondence with the model "
             "configured with the credentials the USER configured (a driver that hands over something else disagrees with it); "
             "there is no asyncio in-channel ssh transport, those scenarios call AsyncChannel.channel_authenticate_ssh as a driver "
-            "would. The history theorems assume what C09_generated_counters_local establishes for the tree (no login state on the "
+            "would. The credential-VALUE scenarios are covered the same way (oracle + correspondence with the model configured with "
+            "the bytes the user configured; the str -> bytes encoding of Channel.write is not modelled in Coq, the model is handed "
+            "the UTF-8 bytes); a value that contains a newline makes the line-based device react twice to one answer, which the "
+            "closed-loop model (one phase per answer) does not cover: those runs are checked against the open-loop model (run_raw on "
+            "the reads) and the device-side part is oracle-only; a newline is only generated at the end of the last credential the "
+            "device asks for, with accepted credentials. Quiet gaps are empty reads / poll expiries of the scripted transport with "
+            "a scripted clock (no real waiting), begun by a completed line and at most 12 per run. The history theorems assume what C09_generated_counters_local establishes for the tree (no login state on the "
             "object); other per-object state (ANSI partial, channel log) is outside the model, the history scenarios observe it only "
             "through the oracle. "
             "Known findings: partial-line matches (login:/username:/password: or a shell-prompt-like prefix inside a longer line at a "
